@@ -81,7 +81,7 @@ def run(ctx):
         seeds = []
         for k in range(10 if thorough else 5):
             conf = G.gen_conf(rng, small=True)
-            seeds.append(G.make_case(conf, rng, tag='c03s%d' % k, include_p=0.15 if k % 2 else 0))
+            seeds.append(G.make_case(conf, rng, tag='c03s%d' % k, include_p=0.15 if k % 2 else 0, allow_abs=False))
         for s in seeds:
             b = s['main'].encode('utf-8')
             for i in range(len(b) + 1):
